@@ -29,6 +29,3 @@ Definition batch_path (o : opts) (xs : list pdoc) (end_first : bool) (extra : N)
 Definition skip_path (segs : list (list pdoc)) (extra : N) (g : option N) : list bop :=
   flat_map (fun xs => put_ops xs ++ [BSkip]) segs ++ [BFinalize extra g].
 
-(* side condition (as C14's emb_ok): an embedding has at least one component *)
-Definition doc_ok (d : doc) : bool := match d_emb d with Some e => nonempty e | None => true end.
-Definition op_ok (op : bop) : bool := match op with BPut d _ _ => doc_ok d | _ => true end.
